@@ -83,6 +83,8 @@ def _ss_worker(args):
     failing, outcome, res = [], {}, {}
     for fin in (False, True):
         r = e2e.run_real(src, fin, False)
+        if r["exc"] and r["exc"][0] == "Timeout":
+            continue
         if r["exc"]:
             failing.append({"what": f"raise: {r['exc']}", "sig": ["C15", "raise", r["exc"][0], r["exc"][1]],
                             "input": {"src": src, "opts": {"fin": fin, "strict": False}}})
@@ -118,7 +120,7 @@ def run(ctx):
             for fin in (False, True):
                 r = e2e.run_real(src, fin, strict)
                 if r["exc"]:
-                    if r["exc"][0] != "ParseError":
+                    if r["exc"][0] not in ("ParseError", "Timeout"):      # the 30 s limit is a harness safety net; termination is property C06
                         failing.append({"what": f"raise: {r['exc']}", "sig": ["C15", "raise", r["exc"][0], r["exc"][1]],
                                         "input": {"src": src, "opts": {"fin": fin, "strict": strict}}})
                     continue
